@@ -40,6 +40,10 @@ func (g *hasGen) genComments() {
 func (g *hasGen) generate() {
 	g.genComments()
 	g.P("func (x *", g.typeName, ") Has(fd ", protoreflectPkg.Ident("FieldDescriptor"), ") bool {")
+	// a nil message is an empty read-only message
+	g.P("if x == nil {")
+	g.P("x = &", g.typeName, "{}")
+	g.P("}")
 	g.P("switch fd.FullName() {")
 	for _, field := range g.message.Fields {
 		g.genField(field)
